@@ -423,6 +423,10 @@ def build_sites() -> List[Site]:
         out = [(p.kind, p.make) for p in P]
         for name, c in sorted(celpy.googleapis.items()):
             out.append(("type", (lambda c=c: c)))
+        # an identifier that is not a variable denotes the function of that name: `getDate{}` applies it (D47);
+        # what a function raises depends on the function, not on the kind "function" — take all of them
+        for name, f in sorted(bf.items(), key=lambda kv: str(kv[0])):
+            out.append(("function", (lambda f=f: f)))
         return out
 
     def object0_cases():
